@@ -147,7 +147,7 @@ CLAIMED = {
          "kind and every run; F-closerace is a run of the model with the repair off (C14_closerace_as_it_was). C14_link_shut_full is a THEOREM for the model with repair 7a732b1 (every connection obtained after "
          "close() is closed once close() returned and the connect() in flight finished; C14_drainleak_as_it_was is the counter-run without "
          "the repair). PARTIAL: (2) after close() returned a receive task created by a connect() that was inside its status callback may exist "
-         "for one step (never reads); (3) send() coroutines are outside the termination measure; one close() call; no _seed_network_map.",
+         "for one step (never reads); (3) send() coroutines are outside the termination measure; one close() call; no _seed_network_map; (4) close() awaited from inside a status/receive callback (on one of the client's own tasks) is outside the LTS and is decided on the real clients by the property oracle (120 sessions per run); the defect repaired by 8427f0d was found and is checked there.",
          "Trusted: as C13; tools/props/c14.py oracle (state stays CLOSED, no attempt after CLOSED, no receive callback after close() returned, "
          "writers closed, no pending task, status trace = state changes, raise/return differential). Theorems closed under the global context.",
          "DESIGN.md §10.7"),
